@@ -2,7 +2,7 @@
    the position handed to ctx.Warn is the Pos() of a node of the analysed file, hence (by wf, which the tie checks
    against an independent go/scanner pass) the start of a token of that file; the zero-value suggestion of newDeref
    never contains a nil node. *)
-From GC Require Import Base GoAst Model_Checkers Model_Checkers_Prefix Proofs_Checkers Proofs_Witnesses.
+From GC Require Import Base GoAst Model_Checkers Model_Checkers_Prefix Model_Checkers2 Model_Walkers Model_Comments Proofs_Checkers Proofs_Checkers2 Proofs_Walkers Proofs_Comments Proofs_Witnesses.
 
 Theorem C07_newDeref_pos_valid : forall f, wf f = true -> forall w, In w (warnings (run_newDeref f)) -> In (w_pos w) (token_starts f).
 Proof. exact (fun f W w H => cause_pos_valid f w W (newDeref_cause f w H)). Qed.
@@ -72,3 +72,150 @@ Theorem C07_prefix_zero_value_no_nil_arg_refuted : exists f, wf f = true /\ exis
 Proof. exact newDeref_prefix_render_refuted. Qed.
 Print Assumptions C07_prefix_zero_value_no_nil_arg_refuted.
 
+
+(* ---------- second batch (Model_Checkers2.v) ---------- *)
+
+Theorem C07_builtinShadowDecl_pos_valid : forall f, wf f = true -> forall w, In w (warnings (run_builtinShadowDecl f)) -> In (w_pos w) (token_starts f).
+Proof. exact (fun f W w H => cause_pos_valid f w W (builtinShadowDecl_cause f w H)). Qed.
+Print Assumptions C07_builtinShadowDecl_pos_valid.
+
+Theorem C07_defaultCaseOrder_pos_valid : forall f, wf f = true -> forall w, In w (warnings (run_defaultCaseOrder f)) -> In (w_pos w) (token_starts f).
+Proof. exact (fun f W w H => cause_pos_valid f w W (defaultCaseOrder_cause f w H)). Qed.
+Print Assumptions C07_defaultCaseOrder_pos_valid.
+
+Theorem C07_emptyFallthrough_pos_valid : forall f, wf f = true -> forall w, In w (warnings (run_emptyFallthrough f)) -> In (w_pos w) (token_starts f).
+Proof. exact (fun f W w H => cause_pos_valid f w W (emptyFallthrough_cause f w H)). Qed.
+Print Assumptions C07_emptyFallthrough_pos_valid.
+
+Theorem C07_initClause_pos_valid : forall f, wf f = true -> forall w, In w (warnings (run_initClause f)) -> In (w_pos w) (token_starts f).
+Proof. exact (fun f W w H => cause_pos_valid f w W (initClause_cause f w H)). Qed.
+Print Assumptions C07_initClause_pos_valid.
+
+Theorem C07_deferInLoop_pos_valid : forall f, wf f = true -> forall w, In w (warnings (run_deferInLoop f)) -> In (w_pos w) (token_starts f).
+Proof. exact (fun f W w H => cause_pos_valid f w W (deferInLoop_cause f w H)). Qed.
+Print Assumptions C07_deferInLoop_pos_valid.
+
+Theorem C07_paramTypeCombine_pos_valid : forall f, wf f = true -> forall w, In w (warnings (run_paramTypeCombine f)) -> In (w_pos w) (token_starts f).
+Proof. exact (fun f W w H => cause_pos_valid f w W (paramTypeCombine_cause f w H)). Qed.
+Print Assumptions C07_paramTypeCombine_pos_valid.
+
+Theorem C07_ptrToRefParam_pos_valid : forall f, wf f = true -> forall w, In w (warnings (run_ptrToRefParam f)) -> In (w_pos w) (token_starts f).
+Proof. exact (fun f W w H => cause_pos_valid f w W (ptrToRefParam_cause f w H)). Qed.
+Print Assumptions C07_ptrToRefParam_pos_valid.
+
+Theorem C07_sloppyTypeAssert_pos_valid : forall f, wf f = true -> forall w, In w (warnings (run_sloppyTypeAssert f)) -> In (w_pos w) (token_starts f).
+Proof. exact (fun f W w H => cause_pos_valid f w W (sloppyTypeAssert_cause f w H)). Qed.
+Print Assumptions C07_sloppyTypeAssert_pos_valid.
+
+Theorem C07_octalLiteral_pos_valid : forall f, wf f = true -> forall w, In w (warnings (run_octalLiteral f)) -> In (w_pos w) (token_starts f).
+Proof. exact (fun f W w H => cause_pos_valid f w W (octalLiteral_cause f w H)). Qed.
+Print Assumptions C07_octalLiteral_pos_valid.
+
+Theorem C07_hexLiteral_pos_valid : forall f, wf f = true -> forall w, In w (warnings (run_hexLiteral f)) -> In (w_pos w) (token_starts f).
+Proof. exact (fun f W w H => cause_pos_valid f w W (hexLiteral_cause f w H)). Qed.
+Print Assumptions C07_hexLiteral_pos_valid.
+
+Theorem C07_weakCond_pos_valid : forall f, wf f = true -> forall w, In w (warnings (run_weakCond f)) -> In (w_pos w) (token_starts f).
+Proof. exact (fun f W w H => cause_pos_valid f w W (weakCond_cause f w H)). Qed.
+Print Assumptions C07_weakCond_pos_valid.
+
+Theorem C07_methodExprCall_pos_valid : forall f, wf f = true -> forall w, In w (warnings (run_methodExprCall f)) -> In (w_pos w) (token_starts f).
+Proof. exact (fun f W w H => cause_pos_valid f w W (methodExprCall_cause f w H)). Qed.
+Print Assumptions C07_methodExprCall_pos_valid.
+
+Theorem C07_dupBranchBody_pos_valid : forall f, wf f = true -> forall w, In w (warnings (run_dupBranchBody f)) -> In (w_pos w) (token_starts f).
+Proof. exact (fun f W w H => cause_pos_valid f w W (dupBranchBody_cause f w H)). Qed.
+Print Assumptions C07_dupBranchBody_pos_valid.
+
+Theorem C07_exitAfterDefer_pos_valid : forall f, wf f = true -> forall w, In w (warnings (run_exitAfterDefer f)) -> In (w_pos w) (token_starts f).
+Proof. exact (fun f W w H => cause_pos_valid f w W (exitAfterDefer_cause f w H)). Qed.
+Print Assumptions C07_exitAfterDefer_pos_valid.
+
+Theorem C07_singleCaseSwitch_pos_valid : forall f, wf f = true -> forall w, In w (warnings (run_singleCaseSwitch f)) -> In (w_pos w) (token_starts f).
+Proof. exact (fun f W w H => cause_pos_valid f w W (singleCaseSwitch_cause f w H)). Qed.
+Print Assumptions C07_singleCaseSwitch_pos_valid.
+
+Theorem C07_elseif_pos_valid : forall skip_balanced f, wf f = true -> forall w, In w (warnings (run_elseif skip_balanced f)) -> In (w_pos w) (token_starts f).
+Proof. exact (fun p f W w H => cause_pos_valid f w W (elseif_cause p f w H)). Qed.
+Print Assumptions C07_elseif_pos_valid.
+
+Theorem C07_underef_pos_valid : forall skip_recv f, wf f = true -> forall w, In w (warnings (run_underef skip_recv f)) -> In (w_pos w) (token_starts f).
+Proof. exact (fun p f W w H => cause_pos_valid f w W (underef_cause p f w H)). Qed.
+Print Assumptions C07_underef_pos_valid.
+
+Theorem C07_unnamedResult_pos_valid : forall check_exported f, wf f = true -> forall w, In w (warnings (run_unnamedResult check_exported f)) -> In (w_pos w) (token_starts f).
+Proof. exact (fun p f W w H => cause_pos_valid f w W (unnamedResult_cause p f w H)). Qed.
+Print Assumptions C07_unnamedResult_pos_valid.
+
+Theorem C07_captLocal_pos_valid : forall params_only f, wf f = true -> forall w, In w (warnings (run_captLocal params_only f)) -> In (w_pos w) (token_starts f).
+Proof. exact (fun p f W w H => cause_pos_valid f w W (captLocal_cause p f w H)). Qed.
+Print Assumptions C07_captLocal_pos_valid.
+
+Theorem C07_builtinShadow_pos_valid : forall f, wf f = true -> forall w, In w (warnings (run_builtinShadow f)) -> In (w_pos w) (token_starts f).
+Proof. exact (fun f W w H => cause_pos_valid f w W (builtinShadow_cause f w H)). Qed.
+Print Assumptions C07_builtinShadow_pos_valid.
+
+Theorem C07_localDefWalker_shows_file_nodes : forall visit f w, (forall def w, In w (visit def) -> w_cause w = fst def) -> In w (warnings (run_localdef visit f)) -> In (w_cause w) (all_nodes f).
+Proof. exact (fun visit f w V H => run_localdef_cause visit f w V H). Qed.
+Print Assumptions C07_localDefWalker_shows_file_nodes.
+
+(* ---------- the astwalk walkers (Model_Walkers.v): whatever a walker shows to ANY visitor is a subsequence of the file's nodes in
+   pre-order: every shown node is a node of the file, in source order, and no occurrence is shown twice ---------- *)
+
+Theorem C07_exprWalker_subseq : forall enter skip f l, walk_expr enter skip f = R l -> subseq l (all_nodes f).
+Proof. exact (walk_expr_subseq). Qed.
+Print Assumptions C07_exprWalker_subseq.
+
+Theorem C07_bodyWalkers_subseq : forall cls enter skip f l, body_walk cls enter skip f = R l -> subseq l (all_nodes f).
+Proof. exact (body_walk_subseq). Qed.
+Print Assumptions C07_bodyWalkers_subseq.
+
+Theorem C07_funcDeclWalker_subseq : forall enter f l, walk_func_decl enter f = R l -> subseq l (all_nodes f).
+Proof. exact (walk_func_decl_subseq). Qed.
+Print Assumptions C07_funcDeclWalker_subseq.
+
+Theorem C07_typeExprWalker_subseq : forall enter skip f l, walk_type_expr enter skip f = R l -> subseq l (all_nodes f).
+Proof. exact (walk_type_expr_subseq). Qed.
+Print Assumptions C07_typeExprWalker_subseq.
+
+Theorem C07_shown_node_pos_valid : forall f l, wf f = true -> subseq l (all_nodes f) -> forall n, In n l -> In (npos n) (token_starts f).
+Proof. exact (fun f l W S n H => wf_pos_of f n W (subseq_In l (all_nodes f) n S H)). Qed.
+Print Assumptions C07_shown_node_pos_valid.
+
+Theorem C07_shown_at_most_once : forall f l, NoDup (all_nodes f) -> subseq l (all_nodes f) -> NoDup l.
+Proof. exact (fun f l N S => subseq_NoDup l (all_nodes f) S N). Qed.
+Print Assumptions C07_shown_at_most_once.
+
+Theorem C07_exprWalker_noskip_is_expr_nodes : forall f, walk_expr decl_entered (fun _ => false) f = R (expr_nodes f).
+Proof. exact (walk_expr_noskip). Qed.
+Print Assumptions C07_exprWalker_noskip_is_expr_nodes.
+
+Theorem C07_stmtWalker_noskip_is_stmt_nodes : forall f l, walk_stmt decl_entered (fun _ => false) f = R l -> l = stmt_nodes f.
+Proof. exact (walk_stmt_noskip). Qed.
+Print Assumptions C07_stmtWalker_noskip_is_stmt_nodes.
+
+Theorem C07_unlambda_pos_valid : forall f, wf f = true -> forall w, In w (warnings (run_unlambda f)) -> In (w_pos w) (token_starts f).
+Proof. exact (fun f W w H => cause_pos_valid f w W (unlambda_cause f w H)). Qed.
+Print Assumptions C07_unlambda_pos_valid.
+
+(* ---------- the comment walkers (Comment, LocalComment, DocComment) ---------- *)
+
+Theorem C07_commentWalker_partition : forall cs, concat (walk_comments cs) = concat (c_groups cs).
+Proof. exact (walk_comments_partition). Qed.
+Print Assumptions C07_commentWalker_partition.
+
+Theorem C07_commentWalker_groups_uniform : forall cs g, In g (walk_comments cs) -> group_uniform g.
+Proof. exact (walk_comments_uniform). Qed.
+Print Assumptions C07_commentWalker_groups_uniform.
+
+Theorem C07_localCommentWalker_shows_file_comments : forall enter f cs g c, In g (walk_local_comments enter f cs) -> In c g -> In c (concat (c_groups cs)) /\ group_uniform g.
+Proof. exact (walk_local_comments_members). Qed.
+Print Assumptions C07_localCommentWalker_shows_file_comments.
+
+Theorem C07_docCommentWalker_shows_doc_fields : forall f cs g, In g (walk_doc_comments f cs) -> exists n, In n (all_nodes f) /\ In (tag_code n, npos n, g) (c_docs cs).
+Proof. exact (walk_doc_comments_docs). Qed.
+Print Assumptions C07_docCommentWalker_shows_doc_fields.
+
+Theorem C07_deprecatedComment_pos_valid : forall f cs ct w, wf_comments f cs = true -> In w (warnings (run_deprecatedComment f cs ct)) -> In (w_pos w) (token_starts f).
+Proof. exact (deprecatedComment_pos_valid). Qed.
+Print Assumptions C07_deprecatedComment_pos_valid.
